@@ -1,7 +1,7 @@
 SPECIFICATION MCSpec
 CONSTANTS
-  MaxFrags = 4
-  Quick = FALSE
-  CtlText = FALSE
-  Layout = FALSE
+  MaxFrags = 3
+  Quick = TRUE
+  CtlText = TRUE
+  Layout = TRUE
 INVARIANTS CursorExact PositionExact HtmlExact Coverage TrimFlags LexesCleanly AgreeAtEnd Emit
